@@ -346,6 +346,7 @@ def _run_history(hist, pristine):
             state.append({"fit": None})
     WRITES.clear()
     viol, n_cmp = [], 0
+    frame_viol = []  # writes outside the model's frame: a broken correspondence, not by itself a failure of the property
     trace = []
     # Objects sharing the cost refit it whenever they score data.  An adapter wrapping the shared cost
     # is only evaluated while no other holder has touched the cost since the adapter's own fit
@@ -480,8 +481,8 @@ def _run_history(hist, pristine):
         done()
         if kind not in ("clone", "sclone"):
             for w in check_writes({"sfit": "fit", "mutate-refit": "fit", "refit-same": "fit"}.get(kind, kind), obj, real_writes, known)[:2]:
-                viol.append(f"step {step}: frame violation: {w}")
-    return {"outcome": "ok", "violations": viol[:5], "compared": n_cmp}
+                frame_viol.append(f"step {step}: {w} (history so far: {trace[-4:]})")
+    return {"outcome": "ok", "violations": viol[:5], "frame": frame_viol[:5], "compared": n_cmp}
 
 
 def impl(hist):
@@ -602,6 +603,19 @@ def run(chk: core.Check):
                          nontrivial=lambda c, r: r.get("compared", 0) >= 3,
                          describe=lambda c: {"objs": [o["kind"] for o in c["objs"]], "ops": [f"{o['op']}@{o['o']}" for o in c["ops"]][:12]})
     chk.notes["outputs_compared"] = sum(r.get("compared", 0) for r in res)
+    # attribute writes outside the frame of the model's operations: the model no longer describes what the code writes.
+    # The differential runs above are the search for an input on which the property itself fails; this alone is reported
+    # as a broken correspondence (no-failing-input-found)
+    nfr = 0
+    for c, r in zip(hs, res):
+        for w in r.get("frame", [])[:1]:
+            nfr += 1
+            if nfr <= 3:
+                chk.violations.append({"kind": "correspondence", "stream": "histories", "case": c, "impl": r, "impl_canon": w,
+                                       "model": "every attribute written by a public call lies inside the frame of the model's operation "
+                                                "(Skc/Model/Frame.lean)", "msg": "frame conformance: " + w, "site": "frame",
+                                       "signature": "correspondence"})
+    chk.streams["histories"]["frame_disagreements"] = nfr
     rng = core.rng_for(chk.seed, "C10/array")
     chk.run_stream("arrays", [array_case(rng) for _ in range(N // 2)], impl_array, oracle=oracle_array, site="caller-data")
     rng = core.rng_for(chk.seed, "C10/update")
